@@ -81,8 +81,17 @@ class Ctx:
         self.index = pd.Index([(i * 7 + 3) % 4 + (10 if i % 3 == 0 else 0) for i in range(n)], name="row")
         self.v, _ = C.make_values("float", n, [i == 2 for i in range(n)])
         self.w = pd.Series(np.array([int(((i * 5) % 7) - 3 + 10 * (i % 2)) for i in range(n)], dtype=np.int64), index=self.index, name="w")
-        self.m = np.array([i % 3 != 1 for i in range(n)]); self.s = slice(1, None); self.p = np.array([n - 1, 0], dtype=np.int64)
+        self._m = np.array([i % 3 != 1 for i in range(n)]); self.s = slice(1, None); self.p = np.array([n - 1, 0], dtype=np.int64)
         self.t = np.arange(n, dtype=np.float64)
+
+    # ONE boolean buffer serves every masked call of a history (callers do reuse a mask array): `m` refills it with the usual selection, `malt` with another one - in place,
+    # same object - so that anything the grouping object remembered about the buffer's earlier content would show in the next call
+    @property
+    def m(self):
+        self._m[:] = [i % 3 != 1 for i in range(self.n)]; return self._m
+    @property
+    def malt(self):
+        self._m[:] = [i % 3 == 1 or i == 0 for i in range(self.n)]; return self._m
 
     def keys(self):
         import pyarrow as pa
@@ -108,6 +117,7 @@ class Ctx:
 M = {
     "sum":      ("sum", lambda X: (X.v,), lambda X: {}),
     "sum_m":    ("sum", lambda X: (X.v,), lambda X: {"mask": X.m}),
+    "sum_malt": ("sum", lambda X: (X.v,), lambda X: {"mask": X.malt}),
     "sum_s":    ("sum", lambda X: (X.w,), lambda X: {"mask": X.s}),
     "sum_p":    ("sum", lambda X: (X.v,), lambda X: {"mask": X.p}),
     "min_w":    ("min", lambda X: (X.w,), lambda X: {}),
@@ -163,7 +173,7 @@ COPIES = ["copy:sum", "copy:head_k", "copy:groups", "copy:cumsum", "copy:sum_t",
 # the HISTORY alphabet: what may come before the last operation. One or more representatives of every way an operation touches the object (re-layout to contiguous codes: transform,
 # row selection, cumulative; in-place unification + indexer/count caches: groups, _group_sort_indexer, apply, median, ema(index_by_groups); count caches: key_count, masked reductions;
 # label-order cache: every reduction; null-flag cache; lengths cache; copies) - operations that only differ in the value they compute are kept for the LAST position
-FIRST = ["sum", "sum_m", "sum_s", "sum_p", "size_m", "median", "sum_t", "min_tm", "median_t", "head_k", "cumsum", "cumsum_m", "apply", "apply_m", "apply_t", "ema", "ema_g", "nearby",
+FIRST = ["sum", "sum_m", "sum_malt", "sum_s", "sum_p", "size_m", "median", "sum_t", "min_tm", "median_t", "head_k", "cumsum", "cumsum_m", "apply", "apply_m", "apply_t", "ema", "ema_g", "nearby",
          "groups", "gsi", "key_count", "hnk", "info", "copy:sum", "copy:head_k", "copy:groups", "copy:sum_t", "rebind"]
 LAST = list(M) + list(ATTR) + COPIES                                                      # every operation (62)
 MUT = ["sum_t", "groups", "head_k", "key_count", "apply", "sum_m", "hnk", "rebind", "ema_g", "copy:sum_t"]      # one representative per kind of state change, for the 3-step sequences
